@@ -1028,6 +1028,40 @@ func TestC09(t *testing.T) {
 		}
 	}
 
+	// ---- 4b. bodies around the configured maximum request size ----
+	// A server with a small limit L: a valid request padded with whitespace to exactly L bytes is
+	// answered normally; the same L bytes followed by bytes that make the whole body malformed
+	// (and longer than L) must not be answered as if the first L bytes were the request.
+	{
+		const L = 200
+		small := jsonrpc.NewServer(jsonrpc.WithServerPingInterval(0), jsonrpc.WithMaxRequestSize(L))
+		small.Register("M", m)
+		h2 := &harness{t: t, c: c, m: m, srv: small, counts: h.counts, first: h.first}
+		for li, l := range []letter{alphabet[0], alphabet[3], alphabet[5]} {
+			for _, batch := range []bool{false, true} {
+				id := ids[li%len(ids)]
+				if !l.needID {
+					id = ""
+				}
+				base := layout([]string{l.build(id, "p0")}, batch, 0)
+				if len(base) > L {
+					t.Fatalf("size-limit base body %d is longer than the limit", li)
+				}
+				padded := base + strings.Repeat(" ", L-len(base))
+				h2.evalHTTP("size-limit/at-limit", fmt.Sprintf("sizelimit/%s/batch=%v/exactly-L", l.name, batch), []byte(padded))
+				for ti, tail := range []string{"x", "}", "]", ",", alphabet[0].build(`7`, "p1"), strings.Repeat("y", 300)} {
+					body := padded + tail
+					if refRPC([]byte(body)).fixed != -32700 {
+						t.Fatalf("oversize body with tail %d unexpectedly valid", ti)
+					}
+					h2.evalHTTP("size-limit/over-limit", fmt.Sprintf("sizelimit/%s/batch=%v/L+tail%d", l.name, batch, ti), []byte(body))
+				}
+			}
+		}
+		h.viol += h2.viol
+		h.n += h2.n
+	}
+
 	// ---- 6. every batch of length 1..maxLen over the alphabet ----
 	// ids: length 1 takes every id; length 2 takes 9 rotations (position p gets ids[(r+4p)%9]);
 	// length 3 takes the rotation r = (sum of letter indices)%9, so that over the enumeration every
